@@ -50,6 +50,11 @@ def _host_settings():
     """VERIF_HOST_DECIMAL=<prec>[,<rounding>]: every library call runs with the calling thread's decimal context set the way a host
     program might have set it (money code with a small precision). Properties quantify over inputs, not over the host's arithmetic
     settings: the observations must be the same. The harness's own reference arithmetic runs outside of it."""
+    if os.environ.get('VERIF_HOST_CALENDAR'):
+        # process-wide: which weekday the host's calendars start with (calendar.setfirstweekday(calendar.SUNDAY) for US-style month views);
+        # the layout of calendar.monthcalendar / Calendar() follows it, the Gregorian calendar does not
+        import calendar
+        calendar.setfirstweekday(int(os.environ['VERIF_HOST_CALENDAR']))
     v = os.environ.get('VERIF_HOST_DECIMAL')
     if not v:
         return None
